@@ -74,6 +74,9 @@ pub enum Act {
     ErrorState(u8),
     /// error whose concrete type is the loader's dr::Error (variant chosen by the number)
     ErrorLoader(u8),
+    /// error of a standard-library type (std::io::Error of several kinds incl. Interrupted / WouldBlock,
+    /// fmt::Error, a Utf8Error, a boxed &str / String message); compared by its rendering and type
+    ErrorStd(u8),
 }
 
 pub fn state_for(n: u8) -> ParseState {
@@ -92,6 +95,42 @@ pub fn loader_error_for(n: u8) -> dr::Error {
         1 => dr::Error::UnclosedBlock,
         _ => dr::Error::DetachedInstruction(None),
     }
+}
+
+pub const STD_ERRORS: u8 = 12;
+
+pub fn std_error_for(n: u8) -> Box<dyn std::error::Error + Send + Sync> {
+    use std::io::{Error as IoError, ErrorKind as K};
+    match n % STD_ERRORS {
+        0 => Box::new(IoError::from(K::Interrupted)),
+        1 => Box::new(IoError::from(K::WouldBlock)),
+        2 => Box::new(IoError::from(K::UnexpectedEof)),
+        3 => Box::new(IoError::new(K::Other, "scripted io error")),
+        4 => Box::new(IoError::from(K::TimedOut)),
+        5 => Box::new(IoError::from(K::BrokenPipe)),
+        6 => Box::new(IoError::from_raw_os_error(4)), // EINTR
+        7 => Box::new(std::fmt::Error),
+        8 => Box::new(std::str::from_utf8(&[0xffu8, 0xfe][..]).unwrap_err()),
+        9 => "scripted message".into(),
+        10 => String::new().into(),
+        _ => Box::new("x".parse::<u32>().unwrap_err()),
+    }
+}
+
+/// (type name, rendering) of a standard-library error value as the script intended it
+pub fn std_error_identity(e: &(dyn std::error::Error + 'static)) -> (String, String) {
+    let ty = if let Some(io) = e.downcast_ref::<std::io::Error>() {
+        format!("io::Error kind={:?} os={:?}", io.kind(), io.raw_os_error())
+    } else if e.is::<std::fmt::Error>() {
+        "fmt::Error".to_string()
+    } else if e.is::<std::str::Utf8Error>() {
+        "Utf8Error".to_string()
+    } else if e.is::<std::num::ParseIntError>() {
+        "ParseIntError".to_string()
+    } else {
+        "other".to_string()
+    };
+    (ty, format!("{} / {:?}", e, e))
 }
 
 #[derive(Debug)]
@@ -166,6 +205,10 @@ impl Recorder {
             Act::ErrorLoader(n) => {
                 self.deviated = true;
                 ParseAction::Error(Box::new(loader_error_for(n)))
+            }
+            Act::ErrorStd(n) => {
+                self.deviated = true;
+                ParseAction::Error(std_error_for(n))
             }
         }
     }
